@@ -1,14 +1,17 @@
 import Qv.Driver.C05
-/-! Line-protocol driver: one JSON object per input line, one JSON object per output line. -/
+/-! Line-protocol driver: one JSON object per input line, one JSON object per output line.
+Each `Qv/Driver/Cxx.lean` exports `handlersCxx`; add its import above and its list below. -/
 open Lean Qv Qv.Drv
+
+def allHandlers : List (String × (Json → Except String Json)) :=
+  handlersC05
 
 def dispatch (j : Json) : Except String Json := do
   let op ← j.getObjVal? "op" >>= Json.getStr?
-  match op with
-  | "expr" => handleExpr j
-  | "value" => handleValue j
-  | "ping" => pure (Json.mkObj [("pong", true)])
-  | _ => throw s!"unknown op {op}"
+  if op == "ping" then return Json.mkObj [("pong", true)]
+  match allHandlers.find? (fun h => h.1 == op) with
+  | some h => h.2 j
+  | none => throw s!"unknown op {op}"
 
 partial def loop (h : IO.FS.Stream) (out : IO.FS.Stream) : IO Unit := do
   let line ← h.getLine
